@@ -25,7 +25,10 @@ def junk_lines(src, rnd):
             # runs of blank lines, some of them holding only spaces / tabs
             out += [rnd.choice((b'', b'', b'  ', b'\t', b'   \t ')) for _ in range(rnd.randrange(1, 4))]
         elif r == 1:
-            out.append(b'   -- note ' + bytes([rnd.randrange(48, 122)]))
+            out.append(b'   -- note ' + bytes([rnd.randrange(48, 122)]) + rnd.choice((b'', b'\t', b' \t', b'  ')))
+        elif r == 2 and l.strip() and b'[[' not in l and b'"' not in l and b"'" not in l:
+            # an end-of-line comment whose line ends in blanks or a tab
+            out[-1] = out[-1].rstrip(b' \t') + rnd.choice((b' -- e', b'  // e', b'\t--e')) + rnd.choice((b'\t', b' ', b' \t ', b''))
     if rnd.randrange(3) == 0 and out:
         # one long run (dozens of lines) of comment lines and blank lines, each with its own indentation and trailing blanks
         k = rnd.randrange(len(out) + 1)
@@ -35,7 +38,7 @@ def junk_lines(src, rnd):
             if c == 0:
                 run.append(rnd.choice((b'', b'  ', b'\t', b' \t ')))
             else:
-                run.append(b' ' * rnd.randrange(7) + (b'\t' if c == 1 else b'') + rnd.choice((b'-- n', b'--', b'// s', b'--[[b]]')) + bytes([rnd.randrange(48, 122)]) + b' ' * rnd.randrange(3))
+                run.append(b' ' * rnd.randrange(7) + (b'\t' if c == 1 else b'') + rnd.choice((b'-- n', b'--', b'// s', b'--[[b]]')) + bytes([rnd.randrange(48, 122)]) + rnd.choice((b'', b' ', b'  ', b'\t', b' \t')))
         out[k:k] = run
     return b'\n'.join(out)
 
@@ -75,6 +78,22 @@ def run(ctx):
     else:
         res = c09.judge(ctx, cases, (2,), focus='C10', variants=True)
         c09.judge(ctx, cases[::4], (0, 1, 3, 4, 5, 6, 7, 8), focus='C10', variants=True)
+    # the indent width as the user gives it: `p8tool luafmt --indentwidth=W` for the boundary widths, .p8 and .p8.png carts
+    d, p, png, src0, runcli = c09.cli_setup(ctx)
+    ctr = []
+    for w, name, want, out, deriv in c09.cli_fmt_outputs(ctx, d, p, png, src0, runcli):
+        wd = 2 if w is None else w
+        again, _, _ = fmt.run_writer(out, 'fmt', wd)
+        ctr.append(({'src': list(want), 'out': list(out), 'width': wd, 'deriv': deriv, 'statsIn': 0, 'statsOut': 0, 'again': list(again if again is not None else b'<raises>'),
+                     'variants': [], 'focus': 'C10'}, (w, name)))
+    if ctr:
+        vv = ctx.validate('TraceFmt', [t for t, _ in ctr])
+        for (t, (w, name)), x in zip(ctr, vv):
+            ctx.evaluations += 1
+            if x[0] == 'ok':
+                ctx.nontrivial += 1
+            elif not x[0].startswith('ood'):
+                ctx.violation('cli-luafmt/%s/width-%s' % (x[0], w), 'output of p8tool luafmt --indentwidth %s for %s rejected (%s)' % (w, name, x[0]), {'kind': 'cli', 'width': w})
     fx = c09.fixture_cases(ctx, rnd)
     c09.judge(ctx, fx, (0, 2, 4) if ctx.quick else tuple(range(9)), focus='C10', variants=False)
     # canaries (hand-written traces)
